@@ -55,6 +55,7 @@ type Outcome struct {
 	LogSHA256 string         `json:"log"`
 	Stats     map[string]int `json:"stats,omitempty"`
 	Distinct  []string       `json:"distinct,omitempty"` // keys of distinct non-trivial cases
+	Measures  map[string][]string `json:"measures,omitempty"` // further distinct-count measures (hashes), by name
 	Sample    any            `json:"sample,omitempty"`
 	SimMillis int64          `json:"sim_ms,omitempty"`
 	Procs     int            `json:"procs,omitempty"`
@@ -67,6 +68,13 @@ func (o *Outcome) stat(k string, n int) {
 		o.Stats = map[string]int{}
 	}
 	o.Stats[k] += n
+}
+
+func (o *Outcome) measure(name, key string) {
+	if o.Measures == nil {
+		o.Measures = map[string][]string{}
+	}
+	o.Measures[name] = append(o.Measures[name], key)
 }
 
 func (o *Outcome) finish() {
